@@ -21,6 +21,7 @@ const (
 	KConst  // untyped numeric constant in contract expressions
 	KGlobalPtr
 	KKey // a raw map key term (contract expressions)
+	KCondConst // cond ? const : const (contract expressions; C[0] is the condition, Elems the two constants)
 )
 
 // Val is a symbolic value.
